@@ -24,6 +24,10 @@ func applyStreamFaults(t *sim.Tape, data []byte, o *Outcome) ([]byte, error, str
 	var desc []string
 	var endErr error
 	nf := 1 + t.Draw(3, "nfaults")
+	if t.Draw(16, "nofault") == 15 { // a valid stream is a byte sequence too
+		nf = 0
+		o.stat("streams_without_fault", 1)
+	}
 	for i := 0; i < nf; i++ {
 		if len(data) == 0 {
 			break
@@ -288,11 +292,16 @@ func runC06(t *testing.T, tape *sim.Tape, tier string) *Outcome {
 		return o
 	}
 	// delivery schedules on top of the stream faults
-	for j := 0; j < 3; j++ {
+	for j := 0; j < 4; j++ {
 		r := &scriptedReader{data: bad, endErr: endErr}
 		switch j {
 		case 1:
 			r.one = true
+			r.piggy = tape.Draw(2, "piggy1") == 1
+		case 3:
+			// everything in one read that also reports the end of the stream
+			r.piggy = true
+			o.stat("delivery_whole_with_end", 1)
 		case 2:
 			k := 1 + tape.Draw(6, "kway")
 			for i := 0; i < k; i++ {
@@ -339,7 +348,7 @@ func init() {
 	register(&Check{
 		ID: "C06", Bubble: false, Run: runC06,
 		Runs:   map[string]int{"quick": 300000, "thorough": 10000000},
-		Rule:   "a case is one (faulted stream, delivery schedule) pair: a valid generated stream with 1..3 transport/peer faults (truncate at any byte with EOF or ECONNRESET, segment loss/duplication/reordering, byte corruption biased to structure, length/count replaced by a boundary integer, nesting amplification) delivered whole, byte-wise and in a seeded partition; inputs declaring lengths above 2^20 and an enumerated boundary table run one per subprocess under a 4 GiB address-space limit; distinct = distinct (stream, partition) hashes; non-trivial = at least one fault applied",
+		Rule:   "a case is one (faulted stream, delivery schedule) pair: a valid generated stream with 1..3 transport/peer faults (truncate at any byte with EOF or ECONNRESET, segment loss/duplication/reordering, byte corruption biased to structure, length/count replaced by a boundary integer, nesting amplification) delivered whole, byte-wise, in a seeded partition and whole together with the end-of-stream indication (n>0 with EOF/ECONNRESET); 1 stream in 16 carries no fault; inputs declaring lengths above 2^20 and an enumerated boundary table run one per subprocess under a 4 GiB address-space limit; distinct = distinct (stream, partition) hashes; non-trivial = at least one fault applied",
 		Real:   []string{"redis/proto parser"},
 		Stub:   []string{"transport: scripted io.Reader applying stream faults", "process isolation: prlimit --as=4GiB subprocess for allocation bombs"},
 		Assume: []string{"a deployment with a 4 GiB address-space limit must survive any input of at most 1 MiB", "coverage-guided fuzzing is a different technique and is not done"},
